@@ -178,41 +178,105 @@ theorem deleteNode_bumps (f : Nat) (sp : Space) (id : Nat) (dtr : Bool) :
     (fun sp c => deleteNodeWith_lastMod_le true f sp c dtr) (aggregatesOf sp id) sp
   cases dtr <;> simp [bump, deleteNodeRefs_lastMod] at * <;> omega
 
-theorem insertNode_lastMod_le (sp : Space) (id cls : Nat) : sp.lastMod ≤ (insertNode sp id cls).1.lastMod := by
-  unfold insertNode; split <;> simp [bump]
+/-- an entry point either leaves the address space literally unchanged or advances the clock -/
+def SameOrBump (sp sp' : Space) : Prop := sp' = sp ∨ sp.lastMod < sp'.lastMod
 
-/-- is this op one of the mutating entry points that (after the fix) advance `last_modified`? -/
+theorem SameOrBump.le {sp sp' : Space} (h : SameOrBump sp sp') : sp.lastMod ≤ sp'.lastMod := by
+  rcases h with h | h
+  · rw [h]; exact Nat.le_refl _
+  · omega
+
+theorem SameOrBump.trans_bump {a b c : Space} (h1 : a.lastMod ≤ b.lastMod) (h2 : b.lastMod < c.lastMod) :
+    SameOrBump a c := Or.inr (by omega)
+
+theorem insertNode_sob (sp : Space) (id cls : Nat) : SameOrBump sp (insertNode sp id cls).1 := by
+  unfold insertNode; split
+  · exact Or.inl rfl
+  · exact Or.inr (by simp [bump])
+
+theorem insertNodeP_sob (sp : Space) (id cls parent ty : Nat) : SameOrBump sp (insertNodeP sp id cls parent ty).1 := by
+  unfold insertNodeP; split
+  · exact Or.inl rfl
+  · exact Or.inr (by simp [bump])
+
+theorem addFolder_sob (sp : Space) (id parent : Nat) : SameOrBump sp (addFolder sp id parent).1 := by
+  unfold addFolder; split
+  · exact Or.inl rfl
+  · exact Or.inr (by simp [bump])
+
+theorem addVariables_bumps (parent : Nat) (ids : List Nat) : ∀ sp : Space,
+    sp.lastMod < (addVariables sp parent ids).1.lastMod := by
+  induction ids with
+  | nil => intro sp; simp [addVariables, bump]
+  | cons id ids ih =>
+    intro sp
+    have h1 := (insertNodeP_sob sp id 2 parent 35).le
+    have h2 := ih (insertNodeP sp id 2 parent 35).1
+    simp only [addVariables]; omega
+
+theorem deleteRef_bumps (sp : Space) (s t ty : Nat) : sp.lastMod < (deleteRefWith true sp s t ty).1.lastMod := by
+  simp [deleteRefWith, bump]
+
+/-- **Every mutating entry point of `AddressSpace` and of the NodeManagement services either
+changes nothing or advances `last_modified`** (for `delete` with either value of
+`delete_target_references` and for `delete_reference` this is what the `fix:` commit established). -/
+theorem applyMut_sob (sp : Space) (m : Mut) : SameOrBump sp (applyMut true sp m).1 := by
+  cases m with
+  | node id cls => exact insertNode_sob _ _ _
+  | nodep id cls parent ty => exact insertNodeP_sob _ _ _ _ _
+  | ref s t ty => exact Or.inr (by simp [applyMut, insertRef, bump])
+  | refs l => exact Or.inr (by simp [applyMut, insertRefs, bump])
+  | settype id t => exact Or.inr (by simp [applyMut, insertRef, bump])
+  | folder id parent => exact addFolder_sob _ _ _
+  | addvars parent ids => exact Or.inr (addVariables_bumps _ _ _)
+  | delref s t ty => exact Or.inr (deleteRef_bumps _ _ _ _)
+  | delnode id dtr => exact Or.inr (deleteNode_bumps _ _ _ _)
+  | sdelnode id dtr =>
+    simp only [applyMut]
+    split
+    · exact Or.inl rfl
+    · exact Or.inr (deleteNode_bumps _ _ _ _)
+  | sdelref s t ty fwd bidir =>
+    simp only [applyMut]
+    repeat' split
+    all_goals first
+      | exact Or.inl rfl
+      | exact Or.inr (deleteRef_bumps _ _ _ _)
+      | exact Or.inr (Nat.lt_trans (deleteRef_bumps sp s t ty) (deleteRef_bumps _ _ _ _))
+  | saddref s t ty fwd cls =>
+    simp only [applyMut]
+    repeat' split
+    all_goals first
+      | exact Or.inl rfl
+      | exact Or.inr (by simp [insertRef, bump])
+
+/-- does this op really change the structure of the address space (nodes or references)? -/
 def changes (st : St) : Op → Bool
-  | .node id _ => (nodeClass? st.sp.nodes id).isNone
-  | .ref _ _ _ => true
-  | .delref _ _ _ => true
-  | .delnode _ _ => true
+  | .mutate m => decide ((applyMut true st.sp m).1.nodes ≠ st.sp.nodes ∨ (applyMut true st.sp m).1.refs ≠ st.sp.refs)
   | _ => false
 
 theorem step_lastMod_le (st : St) (op : Op) : st.sp.lastMod ≤ (step st op).1.sp.lastMod := by
   cases op <;> simp only [step, stepWith]
-  · exact insertNode_lastMod_le _ _ _
-  · simp [insertRef, bump]
-  · simp [deleteRefWith, bump]
-  · exact deleteNodeWith_lastMod_le _ _ _ _ _
+  · exact (applyMut_sob _ _).le
   · split <;> simp
   · split
     · simp
     · split <;> simp
   · split <;> simp
 
-/-- every structural mutation advances the clock (this is what the `fix:` commit establishes for
-`delete` and `delete_reference`) -/
+/-- **whenever nodes or references change, `last_modified` advances** -/
 theorem change_bumps (st : St) (op : Op) (h : changes st op = true) :
     st.sp.lastMod < (step st op).1.sp.lastMod := by
-  cases op <;> simp only [step, stepWith, changes] at * <;> try (simp at h)
-  · unfold insertNode
-    cases hc : nodeClass? st.sp.nodes _ with
-    | none => simp [bump]
-    | some c => simp [hc] at h
-  · simp [insertRef, bump]
-  · simp [deleteRefWith, bump]
-  · exact deleteNode_bumps _ _ _ _
+  cases op with
+  | mutate m =>
+    simp only [changes, decide_eq_true_eq] at h
+    simp only [step, stepWith]
+    rcases applyMut_sob st.sp m with hs | hs
+    · rw [hs] at h; simp at h
+    · exact hs
+  | browse => simp [changes] at h
+  | next => simp [changes] at h
+  | release => simp [changes] at h
 
 /-! ### the invariant holds along every history, and nothing panics -/
 
@@ -220,10 +284,7 @@ theorem step_inv (st : St) (op : Op) (h : Inv st) : Inv (step st op).1 ∧ (step
   have hle := step_lastMod_le st op
   unfold Inv at *
   cases op with
-  | node id cls => exact ⟨h.mono hle, by simp [step, stepWith]⟩
-  | ref s t ty => exact ⟨h.mono hle, by simp [step, stepWith]⟩
-  | delref s t ty => exact ⟨h.mono hle, by simp [step, stepWith]⟩
-  | delnode id dtr => exact ⟨h.mono hle, by simp [step, stepWith]⟩
+  | mutate m => exact ⟨h.mono hle, by simp [step, stepWith]⟩
   | browse n dir ty sub mask rmask req =>
     simp only [step, stepWith, browse]
     cases hd : browseDescs st.sp n dir ty sub mask rmask with
@@ -419,10 +480,7 @@ theorem step_dead (st : St) (op : Op) (id : Nat) (hd : Dead st id) : Dead (step 
     fun h hl => ⟨h.1, fun c hc e => Nat.lt_of_lt_of_le (h.2 c hc e) hl⟩
   unfold Dead at *
   cases op with
-  | node i cls => exact mono (by simpa [step, stepWith] using hd) hle
-  | ref s t ty => exact mono (by simpa [step, stepWith] using hd) hle
-  | delref s t ty => exact mono (by simpa [step, stepWith] using hd) hle
-  | delnode i dtr => exact mono (by simpa [step, stepWith] using hd) hle
+  | mutate m => exact mono (by simpa [step, stepWith] using hd) hle
   | browse n dir ty sub mask rmask req =>
     simp only [step, stepWith, browse]
     cases hb : browseDescs st.sp n dir ty sub mask rmask with
@@ -693,8 +751,8 @@ theorem pages_concat (st : St) (h : Inv st) (n dir ty : Nat) (sub : Bool) (mask 
 
 /-- witness: browse node 1 with page size 1, delete one of the remaining references, continue -/
 def witnessOps : List Op :=
-  [.node 1 1, .node 2 1, .node 3 1, .ref 1 2 35, .ref 1 3 35,
-   .browse 1 0 0 false 0 63 1, .delref 1 3 35, .next [1]]
+  [.mutate (.node 1 1), .mutate (.node 2 1), .mutate (.node 3 1), .mutate (.ref 1 2 35), .mutate (.ref 1 3 35),
+   .browse 1 0 0 false 0 63 1, .mutate (.delref 1 3 35), .next [1]]
 
 /-- On the pinned source (`delete_reference` does not call `update_last_modified`) the
 continuation point survives the deletion and still returns the deleted reference. -/
@@ -707,8 +765,8 @@ theorem witness_fixed : (run init witnessOps).2.getLast? = some (.nexts [invalid
 
 /-- same for `AddressSpace::delete` -/
 def witnessOps2 : List Op :=
-  [.node 1 1, .node 2 1, .node 3 1, .ref 1 2 35, .ref 1 3 35,
-   .browse 1 0 0 false 0 63 1, .delnode 3 true, .next [1]]
+  [.mutate (.node 1 1), .mutate (.node 2 1), .mutate (.node 3 1), .mutate (.ref 1 2 35), .mutate (.ref 1 3 35),
+   .browse 1 0 0 false 0 63 1, .mutate (.delnode 3 true), .next [1]]
 
 theorem C30_counterexample_delete_node_keeps_cp :
     (runWith false init witnessOps2).2.getLast? =
@@ -718,15 +776,28 @@ theorem witness2_fixed : (run init witnessOps2).2.getLast? = some (.nexts [inval
 
 /-! ### every structural mutator of the real `AddressSpace` advances `last_modified` (regenerated) -/
 
+/-- the conditional paths to `update_last_modified()` that were reviewed against the model: in each,
+the skipped case changes nothing (`insert` of an existing node id: `insertNode` / `insertNodeP` /
+`addFolder` return the space unchanged; `delete_visiting` returns early only for a node it has
+already visited in the same call, never at the entry from `delete`, which passes a fresh set). -/
+def acceptedGuards : List (String × String) := [
+  ("insert", "else [if self.node_exists(&node_id)]"),
+  ("add_folder_with_id", "in insert: else [if self.node_exists(&node_id)]"),
+  ("add_folder", "in add_folder_with_id: in insert: else [if self.node_exists(&node_id)]"),
+  ("delete", "in delete_visiting: after exit in [if !visited.insert(node_id.clone())]")]
+
 /-- Regenerated from `address_space.rs` at every check: each `pub fn … (&mut self …)` of
-`AddressSpace` that changes `node_map` or `references` reaches `update_last_modified()` — the
-premise under which `cp_invalid_after_change` speaks about *every* address-space change, not only
-about the four entry points the model contains. -/
-theorem all_mutators_bump : ∀ m ∈ Generated.mutators, m.2 = true := by decide
+`AddressSpace` that changes `node_map` or `references` calls `update_last_modified()` (itself or
+through a function that does) as an UNCONDITIONAL top-level statement of its body, or under exactly
+one of the reviewed guards above.  A bump moved into a branch, behind a new early return or into a
+loop / closure produces a different guard text and fails this theorem. -/
+theorem all_mutators_bump :
+    ∀ m ∈ Generated.mutators, m.2.1 = "always" ∨ (m.2.1 = "cond" ∧ (m.1, m.2.2) ∈ acceptedGuards) := by decide
 
 /-- the entry points the model contains are among the regenerated mutators -/
 theorem modelled_mutators_listed :
-    ["insert", "insert_reference", "delete", "delete_reference"].all
+    ["insert", "insert_reference", "insert_references", "set_node_type", "add_folder_with_id", "add_variables",
+     "delete", "delete_reference"].all
       (fun n => Generated.mutators.any (·.1 == n)) = true := by decide
 
 /-! ### non-vacuity -/
@@ -735,7 +806,7 @@ theorem modelled_mutators_listed :
 `cp_invalid_after_change`, `next_live`, `walk_concat` are satisfiable) -/
 example : let st := (run init (witnessOps.take 6)).1
     Inv st ∧ (1 < st.se.nextId) ∧ (∃ c ∈ st.se.cps, c.id = 1 ∧ st.sp.lastMod ≤ c.lm) ∧
-      changes st (.delref 1 3 35) = true :=
+      changes st (.mutate (.delref 1 3 35)) = true :=
   ⟨(run_inv _ init init_inv).1, by decide, by decide, by decide⟩
 
 example : browseDescs (run init (witnessOps.take 5)).1.sp 1 0 0 false 0 63 =
